@@ -112,6 +112,7 @@ func loadEngine(repo, specDir string, goarch string) (*Engine, error) {
 		}
 	}
 	e.db = loadContracts(repo, specDir, pkgDirs)
+	e.expandTypeInvs()
 	e.prelude = []string{"(declare-sort Fuel 0)", "(declare-fun FZ () Fuel)", "(declare-fun FS (Fuel) Fuel)"}
 	return e, nil
 }
@@ -581,6 +582,7 @@ func (fc *FnCtx) checkFrame(st *State, p token.Pos) {
 	// 1. byte heap
 	if st.heap.S != fc.entry.heap.S {
 		var allowed []T
+		var wins []heapWindow
 		names := make([]string, 0, len(fc.entryVars))
 		for n := range fc.entryVars {
 			names = append(names, n)
@@ -592,7 +594,12 @@ func (fc *FnCtx) checkFrame(st *State, p token.Pos) {
 			switch x := v.(type) {
 			case VSlice:
 				if inMod && isByteElem(x.Elem) {
-					allowed = append(allowed, x.Rgn)
+					if !strings.Contains(path, ".") {
+						// a slice parameter under `modifies`: only its capacity window may be written
+						wins = append(wins, heapWindow{x.Rgn, x.Off, add(x.Off, x.Cap)})
+					} else {
+						allowed = append(allowed, x.Rgn)
+					}
 				}
 			case VPtr:
 				if x.Obj >= 0 {
@@ -610,14 +617,8 @@ func (fc *FnCtx) checkFrame(st *State, p token.Pos) {
 		for _, n := range names {
 			walk(n, fc.entryVars[n], false)
 		}
-		fc.nfr++
-		r := T{fmt.Sprintf("r!%d", fc.nfr), SInt}
-		conds := []T{lt(mkInt(0), r), lt(r, fc.entry.nextR)}
-		for _, a := range allowed {
-			conds = append(conds, neq(r, a))
-		}
-		goal := forallInt(r.S, implies(and(conds...), eq(sel(st.heap, r), sel(fc.entry.heap, r))))
-		fc.assert(st, "frame", "frame[heap]", goal, p, "only the regions listed under modifies are written")
+		goal := fc.unchangedOutside(fc.entry.heap, st.heap, fc.entry.nextR, allowed, wins)
+		fc.assert(st, "frame", "frame[heap]", goal, p, "only the cells listed under modifies are written")
 	}
 	// 2. fields of pointer parameters
 	if explicit {
